@@ -1,24 +1,176 @@
 /-
   C05 — SMB1 structures are emitted in the encoding MS-CIFS prescribes.
   Property theorems only.
+
+    Props/C05/Programs.lean  what the kernel decides on the regenerated marshal programs
+                             (`non_conforming_commands`, `commands_dropping_fields`, …)
+    this file                what the decided predicate means for ALL field values (`conforms_sound`),
+                             which nested wire types conform (`std_nested_conforms`, …) and which do
+                             not (the two counterexamples), and the header algebra.
+
+  Definitions: `Conforms`, `NestedConforms` in `Model/SmbConforms.lean`; the MS-CIFS encoder in
+  `Spec/Cifs.lean`; helper lemmas in `Lemmas/SmbConforms.lean`, `Lemmas/SmbNested.lean`.
 -/
+import Manticore.Props.C05.Programs
 import Manticore.Model.SmbCmd
 import Manticore.Model.SmbCodecs
 import Manticore.Spec.Cifs
-import Manticore.Gen.SmbCommands
+import Manticore.Lemmas.SmbConforms
+import Manticore.Lemmas.SmbNested
 namespace Manticore.C05
 open Manticore Manticore.SmbIR Manticore.Gen.SmbCommands
 
-/-- **Every marshal program conforms** except `WriteRequest`: all integer emissions are
-    little-endian, exactly as wide as the declared type (UCHAR 1, USHORT 2, ULONG 4, LARGE_INTEGER 8),
-    and fields go out in declaration order, parameters before data.  (`WriteRequest` puts its data
-    buffer ahead of the parameter block.) -/
-theorem non_conforming_commands :
-    (commands.filter (fun c => !Conforms c)).map (·.name) = ["WriteRequest"] := by decide +kernel
+/-! ## soundness of the static predicate -/
+
+/-- **`Conforms` is sound**, in its sharpest form: the nested encoders have to agree with MS-CIFS
+    only at the values the nested fields actually hold after `Marshal`, and only the clauses of
+    `ConformsCore` are used.  For every command whose marshal program passes the static check, every
+    codec table, and *all* field values: whenever the MS-CIFS encoder speaks (on the command as
+    `Marshal` leaves it), the bytes the code emits are its bytes. -/
+theorem conforms_sound_at (C : Codecs) (c : Cmd) (hc : ConformsCore c = true)
+    (env : Env) (bs : Bytes) (env' : Env) (sb : Bytes)
+    (hn : ∀ b f typ, MStmt.sub b f typ ∈ c.marshal → ∀ v', env'.get f = some (.t v') →
+      NestedConformsAt C typ v')
+    (he : encodeCmd C c env = .ok bs) (ha : envAfterMarshal C c env = .ok env')
+    (hs : Spec.Cifs.encode c env' = some sb) : bs = sb :=
+  conformsCore_sound_at C c hc env bs env' sb hn he ha hs
+
+/-- **`Conforms` is sound** with respect to the independent MS-CIFS encoder: a command that passes
+    the kernel-decided static check, with nested encoders that conform, emits for all field values
+    exactly the bytes `Spec.Cifs.encode` produces from the declared field list — `WordCount`, AndX
+    block, the parameter fields in declaration order little-endian at their declared widths,
+    `ByteCount` little-endian, the data fields.  (`Spec.Cifs.encode` is `none` where MS-CIFS has no
+    encoding for the values — an integer out of range of its type, an odd parameter length, more than
+    255 words or 65535 bytes, a NUL inside a NUL-terminated string — or where the program has
+    conditional or repeated fields; the specification is evaluated on the command after `Marshal`
+    because `SetBufferFormat` and `c.F = len(c.G)` assign fields.) -/
+theorem conforms_sound (C : Codecs) (c : Cmd) (hc : Conforms c = true)
+    (hn : ∀ s ∈ c.marshal, ∀ b f typ, s = .sub b f typ → NestedConforms C typ)
+    (env : Env) (bs : Bytes) (env' : Env) (sb : Bytes)
+    (he : encodeCmd C c env = .ok bs) (ha : envAfterMarshal C c env = .ok env')
+    (hs : Spec.Cifs.encode c env' = some sb) : bs = sb :=
+  conformsCore_sound_at C c (ConformsCore_of_Conforms hc) env bs env' sb
+    (fun b f typ hm v' _ => (hn _ hm b f typ rfl).at v') he ha hs
+
+/-- **No declared field is left out**: for a conforming straight-line command every declared field
+    belongs to the parameter block or to the data block, so `Spec.Cifs.encode` (which places the
+    fields that have a block) encodes the whole declared list. -/
+theorem conforms_covers_all_fields (c : Cmd) (hc : Conforms c = true)
+    (hl : (layoutM c.marshal).isSome) : ∀ ft ∈ c.fields, (Spec.Cifs.blockOf c ft.1).isSome = true := by
+  intro ft hm
+  simp only [Conforms, Bool.and_eq_true] at hc
+  have := hc.2
+  simp only [allEmitted, List.all_eq_true, List.mem_map, forall_exists_index, and_imp] at this
+  exact blockOf_isSome_of_emitted c hl ft.1 (this ft.1 ft hm rfl)
+
+/-! ## the nested wire types of the library -/
+
+/-- **Nested types that conform**, for all values: FILETIME / SMB_TIME (two little-endian ULONGs),
+    SMB_DATE (the packed little-endian word), SMB_NMPIPE_STATUS, LOCKING_ANDX_RANGE64, OEM_STRING
+    (`04 bytes 00`), the dialect list (each dialect with its own `02` and terminator); and, vacuously,
+    SMB_RESUME_KEY and SMB_DIRECTORY_INFORMATION, for which `Spec.Cifs.nestedEnc` gives no encoding. -/
+theorem std_nested_conforms :
+    ∀ typ ∈ ["FILETIME", "SMB_TIME", "SMB_DATE", "SMB_NMPIPE_STATUS", "LOCKING_ANDX_RANGE64",
+      "OEM_STRING", "Dialects", "SMB_RESUME_KEY", "SMB_DIRECTORY_INFORMATION"],
+      NestedConforms SmbCodecs.std typ := by
+  intro typ h
+  simp only [List.mem_cons, List.not_mem_nil, or_false] at h
+  rcases h with rfl | rfl | rfl | rfl | rfl | rfl | rfl | rfl | rfl
+  · exact SmbCodecs.filetime_conforms
+  · exact SmbCodecs.smb_time_conforms
+  · exact SmbCodecs.smb_date_conforms
+  · exact SmbCodecs.nmpipe_status_conforms
+  · exact SmbCodecs.range64_conforms
+  · exact SmbCodecs.oem_string_conforms
+  · exact SmbCodecs.dialects_conforms
+  · exact SmbCodecs.silent_conforms _ _ SmbCodecs.resume_key_silent
+  · exact SmbCodecs.silent_conforms _ _ SmbCodecs.dir_info_silent
+
+/-- every type name other than `SMB_FILE_ATTRIBUTES` and `SMB_STRING` conforms (names outside the
+    codec table have no encoder at all) -/
+theorem std_nested_conforms_other (typ : String) (h1 : typ ≠ "SMB_FILE_ATTRIBUTES")
+    (h2 : typ ≠ "SMB_STRING") : NestedConforms SmbCodecs.std typ := by
+  by_cases h : typ ∈ ["FILETIME", "SMB_TIME", "SMB_DATE", "SMB_NMPIPE_STATUS", "LOCKING_ANDX_RANGE64",
+      "OEM_STRING", "Dialects", "SMB_RESUME_KEY", "SMB_DIRECTORY_INFORMATION"]
+  · exact std_nested_conforms typ h
+  · simp only [List.mem_cons, List.not_mem_nil, or_false, not_or] at h
+    intro v bs v' he
+    simp only [SmbCodecs.std, SmbCodecs.enc] at he
+    split at he <;> simp_all
+
+/-- **SMB_STRING conforms for the buffer formats 0x01, 0x02, 0x04 and 0x05** (`fmt` is the format the
+    value carries after `Marshal`): `fmt len16 bytes` for 0x01/0x05, `fmt bytes 00` for 0x02/0x04 -/
+theorem smb_string_conforms (v : Tup) (bs : Bytes) (v' : Tup)
+    (h : SmbCodecs.std.enc "SMB_STRING" v = .ok (bs, v')) (hf : v'.1.head? ≠ some 3)
+    (sb : Bytes) (hs : Spec.Cifs.nestedEnc "SMB_STRING" v' = some sb) : bs = sb :=
+  SmbCodecs.smb_string_conforms_at v' hf v bs h sb hs
+
+/-- **SMB_STRING with buffer format 0x03 never conforms**: whatever the string, the code emits two
+    bytes more than MS-CIFS (`03 len16 bytes 00` against `03 bytes 00`) -/
+theorem smb_string_format3_never_conforms (v : Tup) (bs : Bytes) (v' : Tup)
+    (h : SmbCodecs.std.enc "SMB_STRING" v = .ok (bs, v')) (hf : v'.1.head? = some 3)
+    (sb : Bytes) (hs : Spec.Cifs.nestedEnc "SMB_STRING" v' = some sb) : bs.length = sb.length + 2 :=
+  SmbCodecs.smb_string_format3_differs v bs v' h hf sb hs
+
+/-- finding `fmt3:SMB_STRING` at a witness: "AB" in format 0x03 goes out as `03 02 00 41 42 00`,
+    MS-CIFS writes `03 41 42 00` -/
+theorem smb_string_format3_counterexample :
+    SmbCodecs.std.enc "SMB_STRING" ([3, 0], [[0x41, 0x42]]) =
+        .ok ([0x03, 0x02, 0x00, 0x41, 0x42, 0x00], ([3, 2], [[0x41, 0x42]])) ∧
+      Spec.Cifs.nestedEnc "SMB_STRING" ([3, 2], [[0x41, 0x42]]) = some [0x03, 0x41, 0x42, 0x00] ∧
+      ¬ NestedConforms SmbCodecs.std "SMB_STRING" := by
+  refine ⟨by decide, by decide, fun h => ?_⟩
+  have := h ([3, 0], [[0x41, 0x42]]) [0x03, 0x02, 0x00, 0x41, 0x42, 0x00] ([3, 2], [[0x41, 0x42]])
+    (by decide) [0x03, 0x41, 0x42, 0x00] (by decide)
+  exact absurd this (by decide)
+
+/-- finding `be:SMB_FILE_ATTRIBUTES` at a witness: the attributes 0x0037 go out as `00 37`
+    (big-endian), MS-CIFS writes `37 00` -/
+theorem file_attributes_big_endian_counterexample :
+    SmbCodecs.std.enc "SMB_FILE_ATTRIBUTES" ([0x0037], []) = .ok ([0x00, 0x37], ([0x0037], [])) ∧
+      Spec.Cifs.nestedEnc "SMB_FILE_ATTRIBUTES" ([0x0037], []) = some [0x37, 0x00] ∧
+      ¬ NestedConforms SmbCodecs.std "SMB_FILE_ATTRIBUTES" := by
+  refine ⟨by decide, by decide, fun h => ?_⟩
+  have := h ([0x0037], []) [0x00, 0x37] ([0x0037], []) (by decide) [0x37, 0x00] (by decide)
+  exact absurd this (by decide)
+
+/-- **The library's commands, all values**: a conforming command marshalled with the library's own
+    nested encoders emits the MS-CIFS bytes, outside the two recorded findings — no
+    `SMB_FILE_ATTRIBUTES` field, and no string field left in buffer format 0x03. -/
+theorem conforms_sound_std (c : Cmd) (hc : Conforms c = true)
+    (env : Env) (bs : Bytes) (env' : Env) (sb : Bytes)
+    (hattr : ∀ b f, MStmt.sub b f "SMB_FILE_ATTRIBUTES" ∉ c.marshal)
+    (hfmt : ∀ b f, MStmt.sub b f "SMB_STRING" ∈ c.marshal →
+      ∀ v', env'.get f = some (.t v') → v'.1.head? ≠ some 3)
+    (he : encodeCmd SmbCodecs.std c env = .ok bs) (ha : envAfterMarshal SmbCodecs.std c env = .ok env')
+    (hs : Spec.Cifs.encode c env' = some sb) : bs = sb := by
+  refine conformsCore_sound_at _ c (ConformsCore_of_Conforms hc) env bs env' sb ?_ he ha hs
+  intro b f typ hm v' hv
+  by_cases h1 : typ = "SMB_FILE_ATTRIBUTES"
+  · subst h1; exact absurd hm (hattr b f)
+  · by_cases h2 : typ = "SMB_STRING"
+    · subst h2; exact SmbCodecs.smb_string_conforms_at v' (hfmt b f hm v' hv)
+    · exact (std_nested_conforms_other typ h1 h2).at v'
+
+/-! ## header algebra -/
 
 /-- the AndX block of the spec and of the code's default agree: command 0xFF, reserved, offset 0 -/
 theorem andx_default_block (b : Bool) : andxBytes b = Manticore.Spec.Cifs.andxBlock b := by
   cases b <;> rfl
+
+/-- **Parameter block**: `WordCount` (the number of words, AndX words included), then the AndX block
+    and the parameter bytes unchanged, whenever these are an even number of bytes and at most 255
+    words -/
+theorem param_block_eq_spec (andx : Bool) (P : Bytes)
+    (h1 : (Spec.Cifs.andxBlock andx ++ P).length % 2 = 0)
+    (h2 : (Spec.Cifs.andxBlock andx ++ P).length / 2 ≤ 255) :
+    paramBlock andx P =
+      UInt8.ofNat ((Spec.Cifs.andxBlock andx ++ P).length / 2) :: (Spec.Cifs.andxBlock andx ++ P) :=
+  paramBlock_eq_spec andx P h1 h2
+
+/-- **Data block**: `ByteCount` as a little-endian USHORT, then the bytes, up to 65535 bytes -/
+theorem data_block_eq_spec (D : Bytes) (h : D.length ≤ 65535) :
+    dataBlock D = natLe 2 D.length ++ D := dataBlock_eq_spec D h
 
 /-- each negotiated dialect carries its own format byte and terminator, for every list of names -/
 theorem dialects_eq_spec (names : List Bytes) :
@@ -30,6 +182,118 @@ theorem dialects_roundtrip_example :
     Manticore.SmbCodecs.dialectsDec (Manticore.SmbCodecs.dialectsEnc [[78, 84], [76, 77]]) = .ok ([[78, 84], [76, 77]], 8) := by
   decide
 
-theorem command_count : commands.length = 115 := by decide +kernel
+/-! ## non-vacuity -/
+
+/-- the hypotheses of `conforms_sound_std` (hence of `conforms_sound_at`) are satisfiable and its
+    conclusion is what one expects: a Close request, FID 0x1234 as `34 12`, the FILETIME as two
+    little-endian ULONGs, `WordCount` 5, `ByteCount` 0 -/
+example :
+    let env : Env := [("FID", .n 0x1234), ("LastTimeModified", .t ([0x11223344, 0x55667788], []))]
+    let wire : Bytes := [5, 0x34, 0x12, 0x44, 0x33, 0x22, 0x11, 0x88, 0x77, 0x66, 0x55, 0, 0]
+    Conforms cmd_CloseRequest = true ∧
+    (∀ b f, MStmt.sub b f "SMB_FILE_ATTRIBUTES" ∉ cmd_CloseRequest.marshal) ∧
+    (∀ b f, MStmt.sub b f "SMB_STRING" ∉ cmd_CloseRequest.marshal) ∧
+    encodeCmd SmbCodecs.std cmd_CloseRequest env = .ok wire ∧
+    envAfterMarshal SmbCodecs.std cmd_CloseRequest env = .ok env ∧
+    Spec.Cifs.encode cmd_CloseRequest env = some wire := by
+  refine ⟨by decide +kernel, ?_, ?_, by decide +kernel, by decide +kernel, by decide +kernel⟩
+  · intro b f h; simp [cmd_CloseRequest] at h
+  · intro b f h; simp [cmd_CloseRequest] at h
+
+/-- the hypotheses of `conforms_sound` itself (all nested types of the command conform) hold for the
+    Close request -/
+example : ∀ s ∈ cmd_CloseRequest.marshal, ∀ b f typ, s = .sub b f typ →
+    NestedConforms SmbCodecs.std typ := by
+  intro s hs b f typ he
+  subst he
+  simp only [cmd_CloseRequest, List.mem_cons, List.not_mem_nil, or_false, MStmt.sub.injEq,
+    reduceCtorEq, false_or] at hs
+  obtain ⟨_, _, rfl⟩ := hs
+  exact std_nested_conforms _ (by simp)
+
+/-- a command whose `Marshal` assigns a field (`SetBufferFormat(4)` on the directory name): the
+    environment after `Marshal` differs from the one before, the string goes out as `04 41 00`, and
+    the final format is not 0x03 -/
+example :
+    let env : Env := [("DirectoryName", .t ([0, 0], [[0x41]]))]
+    let env' : Env := [("DirectoryName", .t ([4, 0], [[0x41]]))]
+    let wire : Bytes := [0, 3, 0, 0x04, 0x41, 0x00]
+    Conforms cmd_CheckDirectoryRequest = true ∧
+    encodeCmd SmbCodecs.std cmd_CheckDirectoryRequest env = .ok wire ∧
+    envAfterMarshal SmbCodecs.std cmd_CheckDirectoryRequest env = .ok env' ∧
+    Spec.Cifs.encode cmd_CheckDirectoryRequest env' = some wire := by
+  decide +kernel
+
+/-! ## every clause of `ConformsCore` is needed
+
+Toy programs that fail exactly one rule (two where the old declaration-order clause notices it as
+well) and for which the conclusion of `conforms_sound` is false: the code's bytes and the MS-CIFS
+bytes are both shown. -/
+
+private def toy (fields : List (String × String)) (marshal : List MStmt) : Cmd :=
+  { name := "Toy", code := "", isAndX := false, fields := fields, marshal := marshal, unmarshal := [] }
+
+/-- `noWriteAfterEmit`: `L` goes out, then `L = len(B)` — the command after `Marshal` says 3, the
+    wire said 0 -/
+example :
+    let c := toy [("L", "types.USHORT"), ("B", "[]types.UCHAR")]
+      [.int .P 2 .le "L", .assignLen "L" "B" 2, .bytes .D "B"]
+    let env : Env := [("L", .n 0), ("B", .b [1, 2, 3])]
+    let env' : Env := [("L", .n 3), ("B", .b [1, 2, 3])]
+    conformsFailures c = ["write after emission"] ∧
+    encodeCmd SmbCodecs.std c env = .ok [1, 0, 0, 3, 0, 1, 2, 3] ∧
+    envAfterMarshal SmbCodecs.std c env = .ok env' ∧
+    Spec.Cifs.encode c env' = some [1, 3, 0, 3, 0, 1, 2, 3] := by
+  decide +kernel
+
+/-- order within a block: `B` before `A` -/
+example :
+    let c := toy [("A", "types.USHORT"), ("B", "types.USHORT")] [.int .P 2 .le "B", .int .P 2 .le "A"]
+    let env : Env := [("A", .n 1), ("B", .n 2)]
+    conformsFailures c = ["declaration order", "parameter block order"] ∧
+    encodeCmd SmbCodecs.std c env = .ok [2, 2, 0, 1, 0, 0, 0] ∧
+    envAfterMarshal SmbCodecs.std c env = .ok env ∧
+    Spec.Cifs.encode c env = some [2, 1, 0, 2, 0, 0, 0] := by
+  decide +kernel
+
+/-- one field emitted into both blocks -/
+example :
+    let c := toy [("A", "types.USHORT")] [.int .P 2 .le "A", .int .D 2 .le "A"]
+    let env : Env := [("A", .n 1)]
+    conformsFailures c = ["declaration order", "data block order"] ∧
+    encodeCmd SmbCodecs.std c env = .ok [1, 1, 0, 2, 0, 1, 0] ∧
+    envAfterMarshal SmbCodecs.std c env = .ok env ∧
+    Spec.Cifs.encode c env = some [1, 1, 0, 0, 0] := by
+  decide +kernel
+
+/-- `typedStmt`: a field declared OEM_STRING marshalled as an SMB_STRING (format 0x02 kept) -/
+example :
+    let c := toy [("S", "types.OEM_STRING")] [.sub .D "S" "SMB_STRING"]
+    let env : Env := [("S", .t ([2, 0], [[0x41]]))]
+    conformsFailures c = ["declared type of a raw/nested emission"] ∧
+    encodeCmd SmbCodecs.std c env = .ok [0, 3, 0, 2, 0x41, 0] ∧
+    envAfterMarshal SmbCodecs.std c env = .ok env ∧
+    Spec.Cifs.encode c env = some [0, 3, 0, 4, 0x41, 0] := by
+  decide +kernel
+
+/-- `conformsStmts`: a ULONG written with two bytes -/
+example :
+    let c := toy [("A", "types.ULONG")] [.int .P 2 .le "A"]
+    let env : Env := [("A", .n 1)]
+    conformsFailures c = ["int-width/endianness or bytes ahead of the parameter block"] ∧
+    encodeCmd SmbCodecs.std c env = .ok [1, 1, 0, 0, 0] ∧
+    envAfterMarshal SmbCodecs.std c env = .ok env ∧
+    Spec.Cifs.encode c env = some [2, 1, 0, 0, 0, 0, 0] := by
+  decide +kernel
+
+/-- `nodupNames`: a name declared twice -/
+example :
+    let c := toy [("A", "types.USHORT"), ("A", "types.ULONG")] [.int .P 2 .le "A", .int .P 2 .le "A"]
+    let env : Env := [("A", .n 1)]
+    conformsFailures c = ["duplicate declared name"] ∧
+    encodeCmd SmbCodecs.std c env = .ok [2, 1, 0, 1, 0, 0, 0] ∧
+    envAfterMarshal SmbCodecs.std c env = .ok env ∧
+    Spec.Cifs.encode c env = some [3, 1, 0, 1, 0, 0, 0, 0, 0] := by
+  decide +kernel
 
 end Manticore.C05
